@@ -101,6 +101,14 @@ func gen(a vh.Args) {
 			// without CheckQuorum an isolated leader keeps its role: only the
 			// heartbeat-quorum round of ReadIndex protects reads there
 			checkQuorum: i%2 == 1,
+			// a replica that is slow to apply (three histories of four) and the
+			// concurrent kind of state machine (every other history): reads served by
+			// the slow replica have to wait for the entries their read index covers
+			concurrent: (i/2)%2 == 0,
+			slowDwell:  time.Duration(2+r.Intn(6)) * time.Millisecond,
+		}
+		if i%4 != 1 {
+			cfg.slowReplica = uint64(1 + r.Intn(3))
 		}
 		// about 350 operations per history in the quick tier, 2000 in thorough
 		target := 350
@@ -117,8 +125,8 @@ func gen(a vh.Args) {
 			os.Exit(1)
 		}
 		w.Printf("%s\n", caseLine(cfg.name, res))
-		info.Printf("%s checkQuorum=%v clients=%d keys=%d nonvoting=%v ops=%d log=%d net(sent,dropped,delayed,delivered)=%v notes=%v smcheck=%q finalOK=%v\n",
-			cfg.name, cfg.checkQuorum, cfg.clients, cfg.keys, cfg.nonVoting, len(res.ops), len(res.log), res.net, res.notes, res.smcheck, res.finalOK)
+		info.Printf("%s concurrent=%v slow=%d/%v checkQuorum=%v clients=%d keys=%d nonvoting=%v ops=%d log=%d net(sent,dropped,delayed,delivered)=%v notes=%v smcheck=%q finalOK=%v\n",
+			cfg.name, cfg.concurrent, cfg.slowReplica, cfg.slowDwell, cfg.checkQuorum, cfg.clients, cfg.keys, cfg.nonVoting, len(res.ops), len(res.log), res.net, res.notes, res.smcheck, res.finalOK)
 	}
 }
 
